@@ -180,8 +180,8 @@ SUITES = {"hds": HdsSuite()}
 
 
 # ----------------------------------------------------------------------------- Parallels .hdd split over several storages
-def gen_hds_layers(rng, depth, nsect):
-    size = nsect * 512
+def gen_hds_layers(rng, depth, nsect, extra=0):
+    size = (nsect + extra) * 512           # extra: the images are larger than the range their storage declares
     layers = []
     for d in range(depth):
         ms = rng.pick([1, 2, 8])
@@ -266,7 +266,10 @@ class HddSplit(Suite):
         out = []
         for _ in range(n):
             depth = rng.randint(1, 3)
-            nst = rng.randint(2, 4)
+            nst = rng.weighted([(1, 2), (2, 3), (3, 2), (4, 1)])
+            directed = len(out) < 2          # the first two disks: ONE storage whose images are larger than its range
+            if directed:
+                nst = 1
             guids = [rng.getrandbits(128) | 1 for _ in range(depth)]
             explicit_top = rng.chance(0.6)
             if not explicit_top:
@@ -275,14 +278,17 @@ class HddSplit(Suite):
             first_dense = rng.chance(0.6)
             for k in range(nst):
                 nsect = rng.randint(4, 48)
-                layers = gen_hds_layers(rng, depth, nsect)
+                # (the storage's End bounds the disk, not the size in the image headers: images may be larger)
+                layers = gen_hds_layers(rng, depth, nsect, extra=rng.pick([5, 120] if directed else [0, 0, 0, 5, 120]))
                 if k == 0 and first_dense:
                     for l in layers[:1]:            # the first storage holds data nearly everywhere
-                        l2 = gen_hds_layers(rng, 1, nsect)[0]
+                        ex = l["size"] // 512 - nsect
+                        l2 = gen_hds_layers(rng, 1, nsect, ex)[0]
                         while sum(1 for e in l2["bat"] if e) * 10 < len(l2["bat"]) * 7:
-                            l2 = gen_hds_layers(rng, 1, nsect)[0]
+                            l2 = gen_hds_layers(rng, 1, nsect, ex)[0]
                         l.update(l2)
-                storages.append({"nsect": nsect, "layers": layers, "plain_base": rng.chance(0.2 if depth > 1 else 0.5),
+                storages.append({"nsect": nsect, "layers": layers,
+                                 "plain_base": (not directed) and rng.chance(0.2 if depth > 1 else 0.5),
                                  "image_order": rng.sample(range(depth), depth),
                                  # a Plain image may be longer than the range its storage declares (slack behind End):
                                  # the bytes behind End belong to nobody
